@@ -105,6 +105,39 @@ def build(chk):
                     chk.count("fold.bound%d" % n)
                     chk.count("fold.%s.%s" % (variant, fname))
                     progs.append(p)
+    # several folds in ONE program: different functions with the same signature (same parameter names and types) at the same bound,
+    # the same function at two bounds, the same function twice, a fold inside a folded function — every fold applies ITS function
+    sigs = [("fn %s(e: u8, acc: u8) -> u8 { jet::xor_8(jet::left_rotate_8(1, acc), e) }", "rot"),
+            ("fn %s(e: u8, acc: u8) -> u8 { e }", "last"),
+            ("fn %s(e: u8, acc: u8) -> u8 { let (c, s): (bool, u8) = jet::subtract_8(acc, e); s }", "sub"),
+            ("fn %s(e: u8, acc: u8) -> u8 { assert!(jet::lt_8(e, 200)); acc }", "strict")]
+    for k in (1, 2, 3, 4):
+        n = 1 << k
+        for (fa, na), (fb, nb) in [(sigs[0], sigs[1]), (sigs[1], sigs[2]), (sigs[2], sigs[0]), (sigs[1], sigs[3]), (sigs[3], sigs[1]), (sigs[0], sigs[0])]:
+            for ln in sorted({0, 1, n - 1, n // 2}):
+                els = [rng.randrange(256) for _ in range(ln)]
+                if "strict" in (na, nb) and ln and rng.random() < 0.5:
+                    els[rng.randrange(ln)] = 200
+                lv = ("li", ("U", 3), k, tuple(("u", 3, e) for e in els))
+                text = ("%s\n%s\nfn main() { let l: List<u8, %d> = witness::L; let a: u8 = fold::<g1, %d>(l, 5); let b: u8 = fold::<g2, %d>(l, 9); "
+                        "let r: u8 = jet::xor_8(jet::left_rotate_8(3, a), b); assert!(jet::eq_8(r, witness::EXPECT)); }") % (fa % "g1", fb % "g2", n, n, n)
+                p = Prog(text, [("L", ("L", ("U", 3), k)), ("EXPECT", ("U", 3))], "fold-two/%d/%d/%s-%s" % (k, ln, na, nb))
+                p.fixed = [("L", lv)]
+                chk.count("fold.two.%s-%s" % (na, nb))
+                progs.append(p)
+        # the same function at two bounds, and a fold inside a folded function
+        els = [rng.randrange(256) for _ in range(n - 1)]
+        lv = ("li", ("U", 3), k, tuple(("u", 3, e) for e in els))
+        text = ("%s\nfn main() { let l: List<u8, %d> = witness::L; let a: u8 = fold::<g1, %d>(l, 5); let m: List<u8, %d> = list![a, 3]; let b: u8 = fold::<g1, %d>(m, 9); "
+                "assert!(jet::eq_8(b, witness::EXPECT)); }") % (sigs[0][0] % "g1", n, n, 2 * n, 2 * n)
+        p = Prog(text, [("L", ("L", ("U", 3), k)), ("EXPECT", ("U", 3))], "fold-two/%d/two-bounds" % k)
+        p.fixed = [("L", lv)]
+        progs.append(p)
+        text = ("%s\nfn outer(e: u8, acc: u8) -> u8 { let m: List<u8, %d> = list![e, acc]; fold::<g1, %d>(m, 1) }\n"
+                "fn main() { let l: List<u8, %d> = witness::L; let b: u8 = fold::<outer, %d>(l, 9); assert!(jet::eq_8(b, witness::EXPECT)); }") % (sigs[2][0] % "g1", n * 2, n * 2, n, n)
+        p = Prog(text, [("L", ("L", ("U", 3), k)), ("EXPECT", ("U", 3))], "fold-two/%d/nested" % k)
+        p.fixed = [("L", lv)]
+        progs.append(p)
     return progs
 
 
